@@ -146,6 +146,8 @@ pub(crate) struct BlockLookup {
 // https://www.w3.org/TR/xmlschema-2/#regexs
 impl BlockLookup {
     fn new() -> Self {
+        #[cfg(feature = "verif-hooks")]
+        crate::verif::step(crate::verif::site::BLOCK_TABLE_INIT);
         let mut blocks = HashMap::new();
         for block in block::ALL_BLOCKS {
             // In XSD 1.0 we needed to exclude HighSurrogates, LowSurrogates and
@@ -190,6 +192,8 @@ pub(crate) fn block(name: &str) -> Result<CodePointInversionListBuilder, Error> 
         return Ok(builder);
     }
 
+    #[cfg(feature = "verif-hooks")]
+    crate::verif::step(crate::verif::site::BLOCK_LOOKUP_CALL);
     let lookup = block_lookup();
     let block = lookup.lookup(name)?;
     let mut builder = CodePointInversionListBuilder::new();
